@@ -5,7 +5,7 @@
 //!
 //! Known finding (recorded in known_findings.json, pinned by tests/event.rs): the encoder does not end an event
 //! with a blank line.  The oracle therefore reads each event's bytes with one LF appended (over the wire: each
-//! chunk, since one event is one chunk); everything else is compared as the property states it.
+//! event's bytes as write_to returns them); over the wire the body is compared field line by field line, whatever the chunking.
 use permit::Permit;
 use safina::executor::Executor;
 use servlin::{socket_addr_127_0_0_1_any_port, Event, HttpServerBuilder, Request, Response};
@@ -160,37 +160,51 @@ fn fetch(s: &Server) -> Result<(Vec<Vec<u8>>, bool), String> {
         rest = &rest[n + 2..];
     }
 }
-fn events_of(chunks: &[Vec<u8>]) -> Result<Vec<Got>, String> {
+/// the field lines of the whole body (chunk boundaries do not matter: several events may share a chunk), blank lines and
+/// comments dropped, each read as an EventSource client reads a line: (name, value with one leading space removed)
+fn fields_of(chunks: &[Vec<u8>]) -> Result<Vec<(String, String)>, String> {
+    let all: Vec<u8> = chunks.iter().flatten().copied().collect();
+    let t = String::from_utf8(all).map_err(|_| "body is not UTF-8".to_string())?;
+    if !t.is_empty() && !t.ends_with('\n') && !t.ends_with('\r') { return Err(format!("body ends inside a line: {:?}", show(&t[t.len().saturating_sub(40)..]))); }
     let mut v = Vec::new();
-    for c in chunks {
-        let t = String::from_utf8(c.clone()).map_err(|_| "chunk is not UTF-8".to_string())?;
-        let g = sse_parse(&with_blank_line(&t));
-        if g.len() != 1 { return Err(format!("chunk {:?} holds {} events", show(&t), g.len())); }
-        v.push(g[0].clone());
+    for line in t.replace("\r\n", "\n").split(|c| c == '\n' || c == '\r') {
+        if line.is_empty() || line.starts_with(':') { continue; }
+        let (n, val) = match line.find(':') { Some(p) => { let x = &line[p + 1..]; (&line[..p], x.strip_prefix(' ').unwrap_or(x)) } None => (line, "") };
+        v.push((n.to_string(), val.to_string()));
     }
     Ok(v)
 }
-fn want_of(evs: &[(Option<String>, String)]) -> Vec<Got> {
-    evs.iter().map(|(t, d)| Got { ty: match t { Some(t) if !t.is_empty() => t.clone(), _ => "message".into() }, data: normalise(d), id: None, retry: None }).collect()
+/// the fields the events must arrive as: the type, if any, then one data field per line of the data
+fn want_of(evs: &[(Option<String>, String)]) -> Vec<(String, String)> {
+    let mut v = Vec::new();
+    for (t, d) in evs {
+        if let Some(t) = t { v.push(("event".to_string(), t.clone())); }
+        for l in normalise(d).split('\n') { v.push(("data".to_string(), l.to_string())); }
+    }
+    v
 }
 fn check_stream(name: &str) -> Option<String> {
     let desc = format!("stream scenario={name}");
     let m = |d: &str| (None, d.to_string());
     let t = |t: &str, d: &str| (Some(t.to_string()), d.to_string());
     match name {
-        "order" | "content" | "burst" => {
+        "order" | "content" | "burst" | "bigburst" | "hugeburst" => {
             let (evs, gap): (Vec<(Option<String>, String)>, u64) = match name {
                 "order" => ((0..30).map(|i| if i % 3 == 0 { t("tick", &format!("n{i}")) } else { m(&format!("n{i}")) }).collect(), 3),
                 // content that must not end the stream or disturb its neighbours: empty data, bare line ends, field look-alikes
                 "content" => (vec![m("first"), m(""), m("\n"), m("\r"), t("x", ""), m("a\rid: 7"), m("a\r\nevent: y\n"), m(":comment"), m("data: nested"), m("retry: 5"), m("last")], 10),
-                _ => ((0..40).map(|i| m(&format!("b{i}"))).collect(), 0),
+                "burst" => ((0..40).map(|i| m(&format!("b{i}"))).collect(), 0),
+                // bursts that do not fit one read window of the body writer (65528 bytes)
+                "bigburst" => ((0..40).map(|i| m(&format!("{i}:{}", "x".repeat(5000)))).collect(), 0),
+                _ => ((0..3).map(|i| t("big", &format!("{i}:{}", "y".repeat(30000)))).collect(), 0),
             };
             let s = start(Script::Seq(evs.clone(), gap));
             let (chunks, term) = match fetch(&s) { Ok(x) => x, Err(e) => return Some(format!("{desc} expected=chunked event stream actual={e}")) };
-            let got = match events_of(&chunks) { Ok(g) => g, Err(e) => return Some(format!("{desc} expected=one event per chunk actual={e}")) };
+            let got = match fields_of(&chunks) { Ok(g) => g, Err(e) => return Some(format!("{desc} expected=whole field lines actual={e}")) };
             let want = want_of(&evs);
             if got != want { let k = got.iter().zip(want.iter()).position(|(a, b)| a != b).unwrap_or(got.len().min(want.len()));
-                return Some(format!("{desc} expected={} events in sending order actual={} events, first difference at {k}: {:?} vs {:?}", want.len(), got.len(), got.get(k), want.get(k))); }
+                let brief = |x: Option<&(String, String)>| x.map(|(a, b)| format!("{a}: {}", show(&b.chars().take(24).collect::<String>())));
+                return Some(format!("{desc} expected={} fields (every event once, in sending order) actual={} fields, first difference at {k}: {:?} vs {:?}", want.len(), got.len(), brief(got.get(k)), brief(want.get(k)))); }
             if !term { return Some(format!("{desc} expected=terminating chunk after the sender was dropped actual=none")); }
             None
         }
@@ -198,9 +212,9 @@ fn check_stream(name: &str) -> Option<String> {
             let ds: Vec<String> = (0..6).map(|i| format!("s{i}")).collect();
             let s = start(Script::TwoSenders(ds.clone()));
             let (chunks, term) = match fetch(&s) { Ok(x) => x, Err(e) => return Some(format!("{desc} expected=chunked event stream actual={e}")) };
-            let got = match events_of(&chunks) { Ok(g) => g, Err(e) => return Some(format!("{desc} expected=one event per chunk actual={e}")) };
+            let got = match fields_of(&chunks) { Ok(g) => g, Err(e) => return Some(format!("{desc} expected=whole field lines actual={e}")) };
             let want = want_of(&ds.iter().map(|d| (None, d.clone())).collect::<Vec<_>>());
-            if got != want { return Some(format!("{desc} expected=all {} events (the stream ends only when the last sender is gone) actual={} events", want.len(), got.len())); }
+            if got != want { return Some(format!("{desc} expected=all {} events (the stream ends only when the last sender is gone) actual={} data fields", want.len(), got.len())); }
             if !term { return Some(format!("{desc} expected=terminating chunk actual=none")); }
             None
         }
@@ -209,9 +223,9 @@ fn check_stream(name: &str) -> Option<String> {
             let (chunks, term) = match fetch(&s) { Ok(x) => x, Err(e) => return Some(format!("{desc} expected=chunked event stream actual={e}")) };
             let rep = s.report.lock().unwrap().join(";");
             if !rep.contains("connected=false") { return Some(format!("{desc} expected=sender disconnected after overrunning the queue actual={rep}")); }
-            let got = match events_of(&chunks) { Ok(g) => g, Err(e) => return Some(format!("{desc} expected=one event per chunk actual={e}")) };
+            let got = match fields_of(&chunks) { Ok(g) => g, Err(e) => return Some(format!("{desc} expected=whole field lines actual={e}")) };
             // what was queued before the overrun arrives, in order, once
-            for (i, g) in got.iter().enumerate() { if g.data != format!("m{i}") { return Some(format!("{desc} expected=event {i} is m{i} actual={:?}", g.data)); } }
+            for (i, g) in got.iter().enumerate() { if g.0 != "data" || g.1 != format!("m{i}") { return Some(format!("{desc} expected=event {i} is m{i} actual={:?}", g)); } }
             if got.is_empty() || got.len() >= 500 { return Some(format!("{desc} expected=a non-empty prefix of the 500 events actual={}", got.len())); }
             if !term { return Some(format!("{desc} expected=terminating chunk once the disconnected sender is gone actual=none")); }
             None
@@ -247,7 +261,7 @@ fn main() {
         for ty in [None, Some("ty")] { n += 1; if let Some(m) = check_event(ty, d) { if found.len() < 6 { found.push(m) } } }
     }
     for ty in ["", "t", "a b", "a:b", "a\rb", "a\nb", "\r", "\n", "a\r\n", "\u{e9}", "x\u{2028}"] { n += 1; if let Some(m) = check_custom(ty) { if found.len() < 6 { found.push(m) } } }
-    for sc in ["order", "content", "burst", "two-senders", "overrun"] { n += 1; if let Some(m) = check_stream(sc) { if found.len() < 6 { found.push(m) } } }
+    for sc in ["order", "content", "burst", "bigburst", "hugeburst", "two-senders", "overrun"] { n += 1; if let Some(m) = check_stream(sc) { if found.len() < 6 { found.push(m) } } }
     println!("EVALUATED {n}");
     for f in &found { println!("WITNESS {f}"); }
     std::process::exit(if found.is_empty() { 0 } else { 1 });
